@@ -1093,6 +1093,17 @@ class ParamsImpl:
             out = self.check_tok(lambda: sv._check_model_params(self.f, {k_: 1 for k_ in keys}))
             self.trace.append(("check", self.src, keys, out, self.callable_with(keys), any(p[1] == "vp" for p in self.sig)))
             return out
+        if k == "checks":
+            # the check as ModelCreator runs it under a SimulatorController: the reset passes simulator=... as well
+            keys = w[1:]
+            out = self.check_tok(lambda: sv._check_model_params(self.f, {k_: 1 for k_ in keys}, ("simulator",)))
+            try:
+                self.f(object(), simulator=1, **{k_: 1 for k_ in keys})
+                can = True
+            except TypeError:
+                can = False
+            self.trace.append(("check", self.src.splitlines()[0] + " called with simulator= and", keys, out, can, any(p[1] == "vp" for p in self.sig)))
+            return out
         if k == "split":
             items = [t.split(":") for t in w[1:]]
             params = {n: self.make_value(v) for n, v in items}
@@ -1125,10 +1136,13 @@ class CtrlImpl:
     through their on_click / on_value; the play loop (the function handed to solara.lab.use_task) is run to its end in
     this thread, `time.sleep` of mesa.visualization.solara_viz being the point where the scripted user acts."""
 
-    def __init__(self, kind):
+    def __init__(self, kind, sig=()):
         from contextlib import ExitStack
 
         self.kind = kind
+        self.sorted = bool(sig)   # parameters bound by name do not show the order of the call
+        # the parameters of the model class' __init__ after `self`
+        self.sig = [tuple(t.split(":")) for t in sig] or ([("simulator", "pk", "d")] if kind == "sim" else []) + [("kw", "vk", "n")]
         self.stack = ExitStack()
         self.trace = []
         self.ready = False
@@ -1146,31 +1160,46 @@ class CtrlImpl:
 
     # the model class -------------------------------------------------------------------------
     def model_class(self):
+        """a mesa.Model subclass whose __init__ has the scenario's signature (compiled from a def statement); it keeps the
+        keyword arguments it was called with (besides the controller's simulator) and is `running` while steps < stop"""
         m = L()
         mesa = m["mesa"]
         impl = self
+        absent = object()
+        params = [("self", "pk", "n"), *self.sig]
 
-        if self.kind == "sim":
-            class CtrlModel(mesa.Model):
-                def __init__(self, simulator=None, **kw):
-                    super().__init__()
-                    self.kw = kw
-                    impl.created.append(self)
-                    self.simulator = simulator
-                    simulator.setup(self)
+        def setup(model, kw, simulator):
+            mesa.Model.__init__(model)
+            model.kw = kw
+            model.got_simulator = simulator
+            impl.created.append(model)
+            stop = kw.get("stop")
+            if stop is not None and model.steps >= stop:
+                model.running = False
+            if simulator is not None:
+                simulator.setup(model)
 
-                def step(self):
-                    impl.on_model_step(self)
-        else:
-            class CtrlModel(mesa.Model):
-                def __init__(self, **kw):
-                    super().__init__()
-                    self.kw = kw
-                    impl.created.append(self)
+        def hook(loc):
+            model = loc.pop("self")
+            kw = {}
+            for name, kind, _ in self.sig:
+                if kind == "vk":
+                    kw.update(loc[name])
+                elif kind != "vp" and loc[name] is not absent:
+                    kw[name] = loc[name]
+            setup(model, kw, kw.pop("simulator", None) if impl.kind == "sim" else None)
 
-                def step(self):
-                    impl.on_model_step(self)
-        return CtrlModel
+        _, src = build_init(params)
+        src = src.replace("=None", "=__absent__").replace("    pass\n", "    __hook__(locals())\n")
+        ns = {"__absent__": absent, "__hook__": hook}
+        exec(src, ns)  # noqa: S102 - generated from a closed vocabulary
+        self.init_src = src
+        self.setup_model = setup
+
+        def step(model):
+            impl.on_model_step(model)
+
+        return type("CtrlModel", (mesa.Model,), {"__init__": ns["__init__"], "step": step})
 
     def on_model_step(self, model):
         stop = model.kw.get("stop")
@@ -1195,14 +1224,15 @@ class CtrlImpl:
         klass = self.model_class()
         kw0 = {} if stop0 == "-" else {"stop": int(stop0)}
         extra = {}
+        # the first model is the caller's business (made without going through the signature of the scenario)
+        model0 = klass.__new__(klass)
+        self.simulator = None
         if self.kind == "sim":
             from mesa.experimental.devs import ABMSimulator
 
             self.simulator = ABMSimulator()
-            model0 = klass(simulator=self.simulator, **kw0)
             extra["simulator"] = self.simulator
-        else:
-            model0 = klass(**kw0)
+        self.setup_model(model0, kw0, self.simulator)
 
         def rec_button(orig):
             def wrapper(*a, **k):
@@ -1254,12 +1284,27 @@ class CtrlImpl:
                 out = "err unsupported " + txt.split()[0]
             else:
                 out = ParamsImpl().check_tok(lambda: (_ for _ in ()).throw(e))
-            self.trace.append(("viz", items, out))
+            self.trace.append(("viz", items, out, self.facts_viz(items)))
             return out
         self.ready = True
         self.items = items
-        self.trace.append(("viz", items, "ok"))
+        self.trace.append(("viz", items, "ok", self.facts_viz(items)))
         return self.state("viz", None)
+
+    def facts_viz(self, items):
+        """can the constructor be called the way a reset of this controller calls it?"""
+        f, _ = build_init([("self", "pk", "n"), *self.sig])
+        kw = {n: 1 for n, _ in items}
+        try:
+            if self.kind == "sim":
+                # written out as the controller writes it: a `simulator` among the parameters is a second value for it
+                f(object(), simulator=1, **kw)
+            else:
+                f(object(), **kw)
+            can = True
+        except TypeError:
+            can = False
+        return {"callable": can, "sig": self.init_src.splitlines()[0], "has_vp": any(p[1] == "vp" for p in self.sig), "kind": self.kind}
 
     def click(self, i):
         """buttons of the last render of the controller: 0 Reset, 1 the play / pause button, 2 Step"""
@@ -1280,6 +1325,7 @@ class CtrlImpl:
             "updates": int(self.U.update_counter.value - self.updates0),
             "kwargs": dict(model.kw),
             "threads": bool(self.sliders["Use Threads"][1].value),
+            "sim": model.got_simulator is not None and model.got_simulator is self.simulator,
         }
 
     def state(self, op, arg, before=None, extra=None):
@@ -1288,7 +1334,8 @@ class CtrlImpl:
         b = lambda v: "1" if v else "0"  # noqa: E731
         return (f"ok gen={f['gen']} steps={f['steps']} mrunning={b(f['mrunning'])} running={b(f['running'])} playing={b(f['playing'])}"
                 f" play={'dis' if f['play_dis'] else 'en'} stepb={'dis' if f['step_dis'] else 'en'} render={f['render']}"
-                f" updates={f['updates']} kwargs=" + or_dash(",".join(f"{k}:{ParamsImpl.val_tok(v)}" for k, v in f["kwargs"].items())))
+                f" updates={f['updates']} kwargs=" + or_dash(",".join(f"{k}:{ParamsImpl.val_tok(v)}" for k, v in (sorted(f["kwargs"].items()) if self.sorted else f["kwargs"].items())))
+                + f" sim={b(f['sim'])}")
 
     # the scripted user -----------------------------------------------------------------------
     def act(self, tok):
@@ -1347,12 +1394,21 @@ class CtrlImpl:
         if k == "viz":
             return self.viz(int(w[1]), int(w[2]), w[3], [t.split(":", 1) for t in w[4:]])
         if not self.ready:
+            if k in ("step", "play", "reset", "render", "threads", "change", "loop"):
+                return "err notrendered"   # SolaraViz raised: there are no controls
             raise ValueError(w)
         before = self.facts()
         if k in ("step", "play", "reset"):
-            if not self.click({"reset": 0, "play": 1, "step": 2}[k]):
-                self.trace.append(("ctrl-disabled", k, before))
-                return "disabled"
+            try:
+                if not self.click({"reset": 0, "play": 1, "step": 2}[k]):
+                    self.trace.append(("ctrl-disabled", k, before))
+                    return "disabled"
+            except TypeError as e:
+                if k != "reset":
+                    raise
+                # the constructor refused the arguments of the reset
+                self.trace.append(("ctrl-reset-raised", before, str(e)[:200]))
+                return "err Type"
             return self.state(k, None, before)
         if k == "render":
             self.sliders["Render Interval (steps)"][0](int(w[1]))
@@ -1466,7 +1522,7 @@ def run_impl(sc):
     if w0[1] == "space":
         impl = SpaceImpl(w0[2], int(w0[3]), int(w0[4]), [int(v) for v in w0[5:]])
     elif w0[1] == "ctrl":
-        impl = CtrlImpl(w0[2])
+        impl = CtrlImpl(w0[2], w0[3:])
     elif w0[1] == "plot":
         impl = PlotImpl()
     else:
@@ -1725,14 +1781,17 @@ def gen_space(R, tier):
     return core.Scenario(lines, {})
 
 
-NAMES = ["a", "b", "c", "n", "seed", "kwargs", "args", "options", "width", "rest", "kw"]
+NAMES = ["a", "b", "c", "n", "seed", "kwargs", "args", "options", "width", "rest", "kw", "simulator", "simulator"]
 
 
 def gen_sig(R):
     """a syntactically valid signature: [instance] po* pk* [*args] ko* [**kw], defaults contiguous at the
     end of the positional part, all names distinct"""
-    names = NAMES[:]
+    names = list(dict.fromkeys(NAMES))
     R.shuffle(names)
+    if R.random() < 0.25:   # `simulator` among the first names drawn
+        names.remove("simulator")
+        names.append("simulator")
 
     def fresh(prefer=()):
         for n in prefer:
@@ -1778,7 +1837,7 @@ def gen_keys(R, params):
         if R.random() < p:
             keys.append(n)
     if R.random() < 0.2:
-        keys.append(R.choice(["zz", "extra", "kwargs", "args"]))
+        keys.append(R.choice(["zz", "extra", "kwargs", "args", "simulator"]))
     if inst and R.random() < 0.08:
         keys.append(inst[0])
     keys = list(dict.fromkeys(keys))
@@ -1829,12 +1888,12 @@ def gen_params(R, tier):
                     R.shuffle(keys)
                 lines.extend(gen_inputs(R, keys))
             elif k < 0.8:
-                lines.append(" ".join(["check", *keys]))
+                lines.append(" ".join(["checks" if R.random() < 0.25 else "check", *keys]))
             elif k < 0.9:
                 vals = [R.choice(["slider", "val", "dict+type+value+min+max", "dict+label", "dict"]) for _ in keys]
                 lines.append(" ".join(["creator", *[f"{a}:{b}" for a, b in zip(keys, vals)]]))
             else:
-                names = list(dict.fromkeys(keys + R.sample(NAMES, 2)))
+                names = list(dict.fromkeys(keys + R.sample(NAMES, 2)))[:len(keys) + 2]
                 vals = [R.choice(["slider", "val", "val", "dict+type+value", "dict+type", "dict+label+value", "dict"]) for _ in names]
                 lines.append(" ".join(["split", *[f"{a}:{b}" for a, b in zip(names, vals)]]))
     return core.Scenario(lines, {})
@@ -1900,14 +1959,39 @@ def gen_ctrl_param(R, name):
     return f"{name}:spec/{t}/{v}/{R.choice(['-', '-', 'K', 'lbl'])}", True
 
 
+def gen_ctrl_sig(R, kind, names):
+    """the parameters of the model class after `self`: mostly takers for the names of model_params, sometimes one
+    missing or one more (with or without a default), with or without **kw, with / without a `simulator` parameter"""
+    ps = []
+    for n in names:
+        if n != "simulator" and R.random() < 0.88:
+            ps.append((n, R.choice(["pk", "pk", "ko"]), R.choice("dn")))
+    if R.random() < 0.25:
+        spare = [n for n in CTRL_NAMES + ["stop"] if n not in names]
+        if spare:
+            ps.append((R.choice(spare), R.choice(["pk", "ko"]), "d" if R.random() < 0.7 else "n"))
+    k = R.random()
+    if kind == "sim" and k < 0.8 or kind == "model" and (k < 0.1 or "simulator" in names and k < 0.7):
+        ps.append(("simulator", R.choice(["pk", "ko"]), R.choice("dn")))
+    if R.random() < 0.25:
+        ps.append(("kw", "vk", "n"))
+    R.shuffle(ps)
+    rank = {("pk", "n"): 0, ("pk", "d"): 1}
+    ps.sort(key=lambda p_: 3 if p_[1] == "vk" else rank.get((p_[1], p_[2]), 2))
+    return [":".join(p_) for p_ in ps]
+
+
 def gen_ctrl(R, tier):
     kind = "model" if R.random() < 0.65 else "sim"
-    lines = [f"scenario ctrl {kind}"]
     r = R.choice([1, 1, 2, 3, 4, 5])
     t = 1 if kind == "model" and R.random() < 0.15 else 0
     stop0 = "-" if R.random() < 0.25 else str(R.randrange(9))
     names = (["stop"] if R.random() < 0.65 else []) + R.sample(CTRL_NAMES, R.choice([0, 1, 1, 2, 3]))
+    if R.random() < 0.06:
+        names.append("simulator")
     R.shuffle(names)
+    sig = gen_ctrl_sig(R, kind, names) if R.random() < 0.4 else []
+    lines = [" ".join([f"scenario ctrl {kind}", *sig])]
     toks, inputs, unsupported = [], [], False
     for n in names:
         tok, adjustable = gen_ctrl_param(R, n)
@@ -1919,6 +2003,8 @@ def gen_ctrl(R, tier):
     lines.append(" ".join(["viz", str(r), str(t), stop0, *toks]))
     if unsupported:
         return core.Scenario(lines, {})
+    if sig and R.random() < 0.5:
+        lines.append("reset")   # explicit signatures: the constructor call of a reset is what they are about
 
     def pick_input():
         pool = inputs if inputs and R.random() < 0.92 else (names or ["zz"])
@@ -2048,11 +2134,23 @@ def oracle_ctrl(tr):
     """the controls of SolaraViz: what the clauses demand of each click, judged on what the real components did"""
     bad = []
     params, inputs = {}, []
+    ctrl_kind = None
     for ev in tr:
         kind = ev[0]
         if kind == "viz":
             if ev[2] == "ok":
                 params, inputs = ctrl_expected_params(ev[1])
+            facts = ev[3]
+            ctrl_kind = facts["kind"]
+            # the model-parameter check accepts exactly when the constructor can be called the way a reset of this
+            # controller calls it: Model(**model_parameters), under a SimulatorController Model(simulator=..., **model_parameters)
+            if not ev[2].startswith("err unsupported") and (ev[2] == "ok") != (facts["callable"] and not facts["has_vp"]):
+                bad.append(f"ctrl-check-vs-call: {facts['sig']} with parameters {[n for n, _ in ev[1]]} under a "
+                           f"{'SimulatorController' if ctrl_kind == 'sim' else 'ModelController'}: SolaraViz says {ev[2]}, the call a reset makes "
+                           f"{'works' if facts['callable'] else 'fails'}")
+            continue
+        if kind == "ctrl-reset-raised":
+            bad.append(f"ctrl-reset-args: the parameter set passed the check, Reset raised TypeError: {ev[2]}")
             continue
         if kind == "ctrl-loop-overrun":
             bad.append(f"ctrl-loop-overrun: the play loop went on after the pause button was clicked ({ev[1]})")
@@ -2063,7 +2161,12 @@ def oracle_ctrl(tr):
         got_kw = {k: ParamsImpl.val_tok(v) for k, v in f["kwargs"].items()}
         # the flag the buttons show is the model's whenever the controller has stepped or replaced the model
         # (seen, not counted: toggling the threads checkbox mounts the controller anew — its flags start over)
-        if (op in ("step", "reset") or (op == "loop" and extra["ticks"] > 0)) and f["running"] != f["mrunning"]:
+        # — except for a model that stopped in its constructor: do_reset turns the flag on without looking at the new
+        # model (as the first render does), so until its first step the buttons of such a model are enabled
+        fresh_stopped = f["steps"] == 0 and f["running"] and not f["mrunning"] and op != "step"
+        if f["sim"] != (ctrl_kind == "sim"):
+            bad.append(f"ctrl-simulator: after {op} the current model {'was' if f['sim'] else 'was not'} given the simulator")
+        if (op in ("step", "reset") or (op == "loop" and extra["ticks"] > 0)) and f["running"] != f["mrunning"] and not fresh_stopped:
             bad.append(f"ctrl-running-flag: after {op} the controls show running={f['running']}, model.running is {f['mrunning']}")
         if f["step_dis"] != (f["playing"] or not f["running"]) or f["play_dis"] != (not f["running"]):
             bad.append(f"ctrl-buttons: after {op}: playing={f['playing']} running={f['running']} but Step disabled={f['step_dis']}, "
